@@ -8,7 +8,7 @@ use tokio::task::JoinHandle;
 use crate::{
     block_watcher::{BlockProvider, BlockWatcher},
     common::{self, H128},
-    explore::{Choice, Model, Violation},
+    explore::{Choice, Dev, Model, Violation},
     messages::BlockAdded,
     rpc::{verif_hook, Rpc},
     sched,
@@ -30,6 +30,8 @@ enum Ev {
     FailPoll(u64),
     Block(u32),
     Advance(u64),
+    /// the task that was suspended at a preemption point continues (nothing else happens)
+    Resume,
 }
 
 pub struct B {
@@ -53,13 +55,19 @@ pub struct B {
     trace: Vec<String>,
     violations: Vec<Violation>,
     events: Vec<Ev>,
+    next_dev: Dev,
+    last_step: sched::StepInfo,
+    parks_used: u32,
 }
 
 static COUNTER: std::sync::atomic::AtomicU64 = std::sync::atomic::AtomicU64::new(0);
 
 impl B {
     fn settle(&mut self) {
-        self.rt.block_on(sched::quiesce());
+        if sched::release_parked() > 0 {
+            self.trace.push("  [scheduler] the suspended task continues".to_string());
+        }
+        self.rt.block_on(sched::quiesce_parkable());
         let panics = sched::take_panics();
         for p in panics {
             self.violations.push(Violation {
@@ -87,8 +95,9 @@ impl B {
             self.view.add(&("req", &r.label));
             if r.method == Method::Getinfo {
                 self.polls_seen += 1;
-                // a periodic poll must start exactly 60 s after the previous one completed
-                if let Some(done) = self.last_poll_done_ms {
+                // a periodic poll must start exactly 60 s after the previous one completed (a task that was
+                // suspended completes its poll when it continues, not when the reply was handed to it)
+                if let (Some(done), 0) = (self.last_poll_done_ms, self.parks_used) {
                     if self.polls_seen > 1 && self.vtime_ms < done + 60_000 {
                         self.violations.push(Violation {
                             property: "C20",
@@ -108,6 +117,10 @@ impl B {
             Some(w) => Arc::clone(w),
             None => return,
         };
+        if sched::parked() > 0 {
+            // a suspended task may be the one that is about to record what it was told
+            return;
+        }
         let h = futures::executor::block_on(w.current_height());
         if h != self.told_max {
             self.violations.push(Violation {
@@ -123,7 +136,7 @@ impl B {
         }
         // catch-up: if a poll interval has passed since the last poll completed, a poll must be outstanding
         let pending = self.sim.with(|s| s.pending.iter().any(|p| p.method == Method::Getinfo));
-        if let Some(done) = self.last_poll_done_ms {
+        if let (Some(done), 0) = (self.last_poll_done_ms, self.parks_used) {
             if !pending && self.vtime_ms >= done + 60_000 {
                 self.violations.push(Violation {
                     property: "C20",
@@ -141,6 +154,7 @@ impl Model for B {
 
     fn new(cfg: &BCfg) -> Self {
         sched::take_panics();
+        sched::own_select();
         crate::clock::enable(crate::clock::BASE_SECS * 1_000_000_000);
         let rt = sched::new_runtime();
         let sim = SimNode::new(Sim::new(common::local_pubkey().to_string()));
@@ -176,6 +190,9 @@ impl Model for B {
             trace: vec![format!("scenario {}", cfg.name)],
             violations: Vec::new(),
             events: Vec::new(),
+            next_dev: Dev::None,
+            last_step: sched::StepInfo::default(),
+            parks_used: 0,
         };
         b.settle();
         b
@@ -189,6 +206,9 @@ impl Model for B {
         }
         let pending: Vec<u64> = self.sim.with(|s| s.pending.iter().filter(|p| p.method == Method::Getinfo).map(|p| p.id).collect());
         let mut first = true;
+        if sched::parked() > 0 {
+            out.push((Ev::Resume, Choice { label: "Resume".into(), cost: 0 }));
+        }
         for id in &pending {
             for h in &self.cfg.heights {
                 out.push((
@@ -238,7 +258,23 @@ impl Model for B {
         let ev = self.events[idx].clone();
         self.trace.push(format!("{:?}", ev));
         self.steps += 1;
+        let (script, park): (Vec<(u16, u8)>, Option<u16>) = match std::mem::replace(&mut self.next_dev, Dev::None) {
+            Dev::None => (Vec::new(), None),
+            Dev::Pick(j, k) => {
+                self.trace.push(format!("  [scheduler] at moment {} with several runnable tasks, the task at queue position {} runs first", j, k));
+                self.view.add(&("pick", j, k));
+                (vec![(j, k)], None)
+            }
+            Dev::Park(n) => {
+                self.trace.push(format!("  [scheduler] the task reaching preemption point {} of this step is suspended there", n));
+                self.view.add(&("park", n));
+                self.parks_used += 1;
+                (Vec::new(), Some(n))
+            }
+        };
+        sched::begin_step(&script, park);
         match ev {
+            Ev::Resume => {}
             Ev::Reply(id, h) => {
                 self.sim.with(|s| {
                     s.height = h;
@@ -273,16 +309,41 @@ impl Model for B {
             }
         }
         self.settle();
+        self.last_step = sched::end_step();
+    }
+
+    fn set_deviation(&mut self, dev: Dev) {
+        self.next_dev = dev;
+    }
+
+    fn last_pick_points(&self) -> Vec<u8> {
+        self.last_step.picks.clone()
+    }
+
+    fn last_sync_points(&self) -> u16 {
+        if self.parks_used >= 1 || sched::parked() > 0 {
+            0
+        } else {
+            self.last_step.syncs
+        }
+    }
+
+    fn deviation_reached(&self) -> bool {
+        self.last_step.script_hit
     }
 
     fn key(&self) -> u128 {
         let mut h = self.view.clone();
         self.sim.with(|s| s.digest(&mut h));
-        h.add(&(self.vtime_ms, self.told_max, self.faults, self.steps, self.last_poll_done_ms));
+        h.add(&(self.vtime_ms, self.told_max, self.faults, self.steps, self.last_poll_done_ms, sched::parked(), self.parks_used));
         h.value()
     }
 
-    fn finish(&mut self) {}
+    fn finish(&mut self) {
+        if sched::parked() > 0 {
+            self.settle();
+        }
+    }
 
     fn take_violations(&mut self) -> Vec<Violation> {
         std::mem::take(&mut self.violations)
